@@ -69,7 +69,7 @@ def run(name, tier="quick", props=None):
     try:
         for p in props:
             t0 = time.time()
-            rc, out = sh(f"./check {p} {tier} 2>&1", cwd=V, timeout=7200)
+            rc, out = sh(f"VERIF_EVIDENCE_DIR={V}/work/evidence-scratch ./check {p} {tier} 2>&1", cwd=V, timeout=7200)
             viol = [l for l in out.splitlines() if l.startswith("VIOLATION")]
             why = [l.strip() for l in out.splitlines() if l.strip().startswith("why:")]
             verdict = "caught" if rc == 1 and viol else ("missed" if rc == 0 else f"tool-error rc={rc}")
